@@ -144,6 +144,9 @@ class SpaOperatorMixin:
     operator itself is delegated to the implementation provided by those nodes.
     """
 
+    # See nengo_spa.ast.base.Node: bare arrays must not broadcast over SPA objects.
+    __array_ufunc__ = None
+
     @staticmethod
     def __define_unary_op(op):
         def op_impl(self):
